@@ -1,8 +1,12 @@
 (* C03 — dump emits the documented wire encoding, JSON-safe, fresh.
    Only statements closed by `exact`/short glue and Print Assumptions.
    Model: coq/model/CoreDump.v (dump = model of dumpers.py, ref_encode = the documented
-   encoding); registry: coq/gen/T_CoreDumpHooks.v regenerated from the source. *)
+   encoding); registry: coq/gen/T_CoreDumpHooks.v regenerated from the source.
+   Second part (C03_bind_order_table onwards): WHICH configuration is in force for a declared
+   class - coq/model/CoreDumpConfig.v (the class-definition-time bind pipeline of serial_json.py /
+   class_helper.py / bases_meta.py), step order coq/gen/T_CoreDumpBindOrder.v regenerated from the source. *)
 From DW Require Import CoreDump T_CoreDumpHooks CoreDumpProofs.
+From DW Require Import CoreDumpConfig CoreDumpConfigV0 T_CoreDumpBindOrder CoreDumpConfigProofs.
 From Coq Require Import ZArith.
 
 (* Tie T: the dump hook registry (order matters: isinstance scan in insertion order). *)
@@ -88,3 +92,119 @@ Example C03_example_dump :
             [(VStr (S "2020-01-01T00:00:00Z"), VSeq STuple false [VStr (S "/a/b"); VStr (S "aGk=")])]);
          (VStr (S "__tag__"), VStr (S "outer"))]).
 Proof. reflexivity. Qed.
+
+(* ======================================================================================
+   Which configuration is in force: the class-definition-time pipeline (CoreDumpConfig.v)
+   ====================================================================================== *)
+
+(* Tie T: program order of the binding statements of JSONSerializable.__init_subclass__ (the implicit
+   DumpMeta of JSONPyWizard FIRST, then the inner-Meta initializer, then the LoadMeta of the class keywords),
+   order of the two lookups of call_meta_initializer_if_needed, what JSONPyWizard passes, the defaults.
+   Moving a bind (e.g. the implicit DumpMeta behind the initializer) breaks this obligation. *)
+Theorem C03_bind_order_table :
+  init_subclass_steps_v0 = [S "dump_meta_bind"; S "meta_initializer"; S "load_meta_bind"] /\
+  meta_initializer_steps_v0 = [S "own"; S "base"] /\
+  pywizard_key_transform_v0 = S "NONE" /\
+  default_dump_transform_v0 = S "to_camel_case" /\
+  default_tag_key_v0 = S "__tag__" /\
+  meta_defaults_v0 = [(S "key_transform_with_dump", S "None"); (S "marshal_date_time_as", S "None");
+                      (S "tag_key", S "str:__tag__")] /\
+  pipeline_v0 = Some pl_doc.
+Proof. repeat split; reflexivity. Qed.
+Print Assumptions C03_bind_order_table.
+
+(* ANY sequence of bind_to calls from ANY state (induction over the sequence): the dumper applies the LATEST
+   explicit key transform of the sequence (else keeps its own), the timestamp hooks are on iff they were or some
+   bind asks for TIMESTAMP, and the stored Meta answers the latest explicit tag key. *)
+Theorem C03_bind_sequences :
+  forall seq st,
+  cs_xf (run_binds seq st) = match latest ms_xf seq with Some x => x | None => cs_xf st end /\
+  cs_ts (run_binds seq st) = (cs_ts st || existsb sets_ts seq)%bool /\
+  meta_get ms_tk (run_binds seq st) = or_else (latest ms_tk seq) (meta_get ms_tk st) /\
+  meta_get ms_xf (run_binds seq st) = or_else (latest ms_xf seq) (meta_get ms_xf st).
+Proof.
+  intros seq st. repeat split;
+    [apply run_binds_xf | apply run_binds_ts | apply (run_binds_meta ms_tk get_and_tk) | apply (run_binds_meta ms_xf get_and_xf)].
+Qed.
+Print Assumptions C03_bind_sequences.
+
+(* INVARIANT over all pipelines and all declarations: the key transform stored in the class's Meta (what a
+   cascade would re-bind when the class is used as a NESTED class) is the one its dumper applies. *)
+Theorem C03_meta_dumper_agree :
+  forall pl d, cs_xf (configure pl d) =
+               match meta_get ms_xf (configure pl d) with Some x => x | None => pl_default_xf pl end.
+Proof. exact configure_consistent. Qed.
+Print Assumptions C03_meta_dumper_agree.
+
+(* For EVERY declaration form (plain dataclass + bind_to, JSONWizard, JSONPyWizard, with/without key_case, with/without
+   inner Meta, derived from a configured class, any number of later DumpMeta/LoadMeta binds) and EVERY explicit setting:
+   the transform in force is the explicitly configured one - latest bind_to, else own inner Meta, else inherited inner
+   Meta - and it wins over the implicit default of the base ...                                   (F93 region excluded) *)
+Theorem C03_explicit_transform_wins_partial :
+  forall d x, wf_decl d = true -> f93_xf d = false -> configured ms_xf d = Some x ->
+  d_xf (effective_cfg pl_doc d) = x.
+Proof. exact explicit_xf_wins. Qed.
+Print Assumptions C03_explicit_transform_wins_partial.
+
+(* ... and without explicit setting the base decides: 'NONE' for JSONPyWizard, camelCase for JSONWizard / plain. *)
+Theorem C03_implicit_transform_default :
+  forall d, wf_decl d = true -> configured ms_xf d = None ->
+  d_xf (effective_cfg pl_doc d) = base_default_xf (dc_base d).
+Proof. exact implicit_xf_default. Qed.
+Print Assumptions C03_implicit_transform_default.
+
+(* The whole dump configuration (key transform, marshal_date_time_as, tag key) of every declaration outside the regions
+   of F93 / F94 is the documented one. *)
+Theorem C03_effective_config_partial :
+  forall d, safe_decl pl_doc d = true -> effective_cfg pl_doc d = documented_cfg d.
+Proof. exact effective_cfg_documented. Qed.
+Print Assumptions C03_effective_config_partial.
+
+(* END TO END: C03_encoding composed with the pipeline - for every declaration form, every setting and every well-formed
+   value, the keys and values emitted under the configuration in force for the declared class (pipeline order read from
+   the source) are the documented encoding under the configuration the declaration documents. *)
+Theorem C03_configured_encoding_partial :
+  forall d v, safe_decl pl_doc d = true -> wfv v = true ->
+  rmap demix (dump_decl dump_hooks_v0 pipeline_v0 d v) = ref_encode (documented_cfg d) v.
+Proof. exact configured_dump_refines_ref. Qed.
+Print Assumptions C03_configured_encoding_partial.
+
+(* The regions are exact: inside F93 the transform in force is NOT the documented one (the base class's inner Meta is
+   bound after the class's own and wins); inside F94 timestamps are written although ISO_FORMAT is configured. *)
+Theorem C03_finding_regions_exact :
+  (forall d, wf_decl d = true -> f93_xf d = true -> d_xf (effective_cfg pl_doc d) <> documented_xf d) /\
+  (forall d, f94_dt pl_doc d = true -> d_dt (effective_cfg pl_doc d) = DtTimestamp /\ documented_dt d = DtIso).
+Proof. split; [exact f93_xf_wrong | exact f94_dt_wrong]. Qed.
+Print Assumptions C03_finding_regions_exact.
+
+(* Witnesses (replayed on the implementation as F93 / F94). *)
+Definition day_cls := mkC 7 (S "Sub") [mkF (S "my_day") None] (Some (S "tg")).
+Definition day_val : pv := VInst day_cls [VTok (mkTok KDate (S "2020-01-01") [] 1577836800)].
+(* class Sub(Base): own inner Meta key_transform_with_dump='SNAKE', Base's inner Meta says 'LISP' *)
+Definition d_f93 : decl :=
+  mkDecl BWizard false (Some (mkMS (Some XSnake) None None)) (Some (Some (mkMS (Some XLisp) None None))) [].
+(* plain dataclass: DumpMeta(marshal_date_time_as='TIMESTAMP').bind_to(C); DumpMeta(marshal_date_time_as='ISO_FORMAT').bind_to(C) *)
+Definition d_f94 : decl :=
+  mkDecl BPlain false None None [mkMS None (Some DtTimestamp) None; mkMS None (Some DtIso) None].
+Theorem C03_configured_encoding_refuted :
+  (wf_decl d_f93 = true /\ wfv day_val = true /\
+   rmap demix (dump_decl dump_hooks_v0 pipeline_v0 d_f93 day_val) <> ref_encode (documented_cfg d_f93) day_val) /\
+  (wf_decl d_f94 = true /\ wfv day_val = true /\
+   rmap demix (dump_decl dump_hooks_v0 pipeline_v0 d_f94 day_val) <> ref_encode (documented_cfg d_f94) day_val).
+Proof. repeat split; try reflexivity; vm_compute; discriminate. Qed.
+Print Assumptions C03_configured_encoding_refuted.
+
+(* Non-vacuity: the declaration of seeded change C03-7 (JSONPyWizard subclass whose inner Meta says LISP, then an
+   unrelated LoadMeta bind) is safe, the explicit LISP is in force, and the keys come out in lisp-case. *)
+Definition d_ex : decl :=
+  mkDecl BPyWizard true (Some (mkMS (Some XLisp) None (Some (S "kind")))) None [ms_none].
+Example C03_config_example :
+  safe_decl pl_doc d_ex = true /\ configured ms_xf d_ex = Some XLisp /\
+  show_config pipeline_v0 d_ex = S "LISP|ISO_FORMAT|kind#LISP|-|kind" /\
+  dump_decl dump_hooks_v0 pipeline_v0 d_ex day_val =
+    Ok (VDict DDict false [(VStr (S "my-day"), VStr (S "2020-01-01")); (VStr (S "kind"), VStr (S "tg"))]) /\
+  (* a JSONPyWizard class without any explicit setting keeps the field names *)
+  show_config pipeline_v0 (mkDecl BPyWizard false None None []) = S "NONE|ISO_FORMAT|__tag__#NONE|-|-" /\
+  (* a subclass without own setting inherits its base's inner Meta *)
+  d_xf (effective_cfg pl_doc (mkDecl BWizard false None (Some (Some (mkMS (Some XPascal) None None))) [])) = XPascal.
+Proof. repeat split; reflexivity. Qed.
